@@ -286,6 +286,15 @@ def make_replay(plan, prop, r, ob, repo, replay_dir):
             rec["confirmed"] = bool(nat and nat.get("confirmed"))
         except Exception as e:
             rec["native_error"] = repr(e)
+    if not rec["confirmed"] and not r.get("synthetic") and prop in ("C01", "C02", "C06"):
+        # no scenario of the engine replayed: search a failing input natively (bounded differential enumeration)
+        try:
+            nat2 = native_enumeration(plan, r, repo, "quick", prop)
+            if nat2 and nat2.get("violation"):
+                rec["native_differential"] = nat2
+                rec["confirmed"] = True
+        except Exception as e:
+            rec["native_differential_error"] = repr(e)
     json.dump(rec, open(path, "w"), indent=1, default=str)
     return {"path": path, "confirmed": rec["confirmed"]}
 
@@ -322,6 +331,15 @@ def replay(prop, path, repo):
         nat = native_replay(plan, r, rec["scenario"], repo)
         print(json.dumps(nat, indent=1))
         if nat and nat.get("confirmed"):
+            print(f"VIOLATION property={prop} replay={path}")
+            return 1
+        if not rec.get("native_differential"):
+            return 0
+    if rec.get("native_differential") or (rec.get("native") or {}).get("method", "").startswith("native differential"):
+        r = {"job": rec["job"], "impl": rec.get("function")}
+        nat = native_enumeration(plan, r, repo, "quick", prop)
+        print(json.dumps(nat, indent=1))
+        if nat and nat.get("violation"):
             print(f"VIOLATION property={prop} replay={path}")
             return 1
         return 0
